@@ -37,6 +37,7 @@ class _State:
     exceeded = 0
     installed = False
     last_evals = 0  # evaluations used by the most recently finished flux calculation
+    calc_tap = None  # when a list: receives (args, kwargs) of every outermost calculate_partial_fluxes call
     tap = None  # when a list: receives (permeate composition argument, result) of driving-force evaluations
     hist = None
 
@@ -79,6 +80,8 @@ def install_budget():
             S.evals = 0
             S.lines = 0
             S.flux_calls += 1
+            if S.calc_tap is not None:
+                S.calc_tap.append((a, dict(k)))
         S.depth += 1
         try:
             return orig_calc(self, *a, **k)
@@ -162,6 +165,29 @@ def tap():
         yield S.tap
     finally:
         S.tap = None
+
+
+@contextlib.contextmanager
+def calc_tap():
+    """record the arguments of the flux calculations made inside the block"""
+    S.calc_tap = []
+    try:
+        yield S.calc_tap
+    finally:
+        S.calc_tap = None
+
+
+def bind_calc_args(a, k):
+    """normalise recorded (args, kwargs) of calculate_partial_fluxes to a name -> value dict"""
+    import inspect
+    from pyvaporation.pervaporation import Pervaporation
+
+    fn = Pervaporation.calculate_partial_fluxes
+    fn = getattr(fn, "__pvmon_original__", fn)
+    params = list(inspect.signature(fn).parameters)[1:]
+    out = dict(zip(params, a))
+    out.update(k)
+    return out
 
 
 def budget_stats():
